@@ -10,6 +10,17 @@
 //	        sizes only, "settle N" = steps until the real planner returns no task, at most N); the
 //	        model op line of a step is "hplan <nextID> | <scores>"; the planner is always the real one.
 //
+//	real    <opts> <batches> <seed>        a REAL writer (file-system directory) is driven through <batches> batches
+//	        of inserts, updates and deletes with these merge-plan options; every call of the planner by the real
+//	        merger is recorded (CalcBudget / ScoreSegments hooks of MergePlanOptions + the root trace of the verif
+//	        build) and becomes one line "rplan <opts> | <segs> | <scores>": the real Plan re-run on exactly the
+//	        segment list the merger passed; the driver first evaluates idsDistinct / sizesSane on it.
+//	witness                                the real ScoreSegments on the six rosters of the Lean witness
+//	        livelock_real_scores
+//	livelock: the concrete input of the finding plan-only-noop-singletons as a plan line and as a history; only
+//	        generated when /verif/known_findings.json lists the finding as open (or VERIF_C19_LIVELOCK=1), so
+//	        that the unchanged tree is green until the lead has recorded it.
+//
 // <opts>  = MaxSegmentsPerTier MaxSegmentSize SegmentsPerMergeTask FloorSegmentSize TierGrowth ReclaimDeletesWeight
 //
 //	(the two floats as %016x bit patterns)
@@ -25,14 +36,21 @@
 package main
 
 import (
+	"encoding/json"
 	"fmt"
 	"math"
+	"os"
+	"path/filepath"
 	"sort"
 	"strconv"
 	"strings"
+	"sync"
 	"time"
 
+	"github.com/blugelabs/bluge"
+	"github.com/blugelabs/bluge/index"
 	"github.com/blugelabs/bluge/index/mergeplan"
+	segment "github.com/blugelabs/bluge_segment_api"
 
 	"verif/harness/hlib"
 )
@@ -42,7 +60,7 @@ type h struct {
 }
 
 func (*h) Rule() string {
-	return "plan: segment lists of 0..60 (quick: some up to 600, thorough: up to 5000) segments with ids in random order; sizes uniform-small, log-uniform from 0 to 2*MaxSegmentSize, all-equal, tier staircases, boundary values around MaxSegmentSize/2 and sums hitting MaxSegmentSize exactly, many empties; live = full minus an arbitrary deleted fraction (0, all, small, random); options: the defaults and small ones (MaxSegmentsPerTier 1..10, MaxSegmentSize 2..1000 and 5e6, SegmentsPerMergeTask 1..10, FloorSegmentSize 0..2000, TierGrowth 1..10, ReclaimDeletesWeight 0..3); a separate malformed stream (MaxSegmentSize <= 1, SegmentsPerMergeTask <= 0, negative sizes, live > full, duplicate ids). hist: per case 3..40 rounds of arrivals of small segments, deletions and real Plan + execution on sizes, then plan/execute until no task. A plan case is non-trivial when the real planner returned at least one task; a history step when it changed the state."
+	return "plan: segment lists of 0..60 (quick: some up to 600, thorough: up to 5000) segments with ids in random order; sizes uniform-small, log-uniform from 0 to 2*MaxSegmentSize, all-equal, tier staircases, boundary values around MaxSegmentSize/2 and sums hitting MaxSegmentSize exactly, many empties; live = full minus an arbitrary deleted fraction (0, all, small, random); options: the defaults and small ones (MaxSegmentsPerTier 1..10, MaxSegmentSize 2..1000 and 5e6, SegmentsPerMergeTask 1..10, FloorSegmentSize 0..2000, TierGrowth 1..10, ReclaimDeletesWeight 0..3); a separate malformed stream (MaxSegmentSize <= 1, SegmentsPerMergeTask <= 0, negative sizes, live > full, duplicate ids). hist: per case 3..40 rounds of arrivals of small segments, deletions and real Plan + execution on sizes, then plan/execute until no task. History options satisfy histOptionsSane (MaxSegmentSize >= 2, SegmentsPerMergeTask >= 2) except for every twelfth history, which has SegmentsPerMergeTask = 1, which the driver judges na. real: real file-system writers (ice v1) driven through 8..60 batches of inserts, updates and deletes over a small id space with small merge-plan options; every planner call of the real merger is recorded and re-run (rplan). budget: the real CalcBudget against the float transcription and, when every float operation is exact, against the exact staircases over the naturals (whole-number growth) and over num/den (dyadic growth such as 1.5, 2.5). A plan case is non-trivial when the real planner returned at least one task; a history step when it changed the state; a real case when the merger called the planner at least once with two or more persisted segments."
 }
 
 // ---------------------------------------------------------------- segments and options
@@ -305,6 +323,68 @@ func (ob planObs) result() string {
 		return ob.plain
 	}
 	return ob.budget + " tasks=" + ob.plain + " scores=ok"
+}
+
+// growthFraction: the exact value of a float64 >= 1 as num/den in lowest terms (den a power of two), when both
+// are below 2^20 (the Lean driver decomposes the bit pattern the same way).
+func growthFraction(g float64) (num, den uint64, ok bool) {
+	b := math.Float64bits(g)
+	e := (b >> 52) & 0x7ff
+	m := (b & (1<<52 - 1)) | 1<<52
+	if b>>63 == 1 || e == 0 || e == 0x7ff {
+		return 0, 0, false
+	}
+	if e >= 1075 {
+		if e-1075 > 11 {
+			return 0, 0, false
+		}
+		num, den = m<<(e-1075), 1
+	} else {
+		sh := 1075 - e
+		for sh > 0 && m%2 == 0 {
+			m /= 2
+			sh--
+		}
+		if sh >= 20 {
+			return 0, 0, false
+		}
+		num, den = m, 1<<sh
+	}
+	if num < 1<<20 && den < 1<<20 && num >= den {
+		return num, den, true
+	}
+	return 0, 0, false
+}
+
+// findingListed: is the finding recorded as open in known_findings.json (cwd of ./check is /verif)?
+func findingListed(sig string) bool {
+	if os.Getenv("VERIF_C19_LIVELOCK") == "1" {
+		return true
+	}
+	root := os.Getenv("VERIF_ROOT")
+	if root == "" {
+		root = "."
+	}
+	raw, err := os.ReadFile(filepath.Join(root, "known_findings.json"))
+	if err != nil {
+		return false
+	}
+	var kf struct {
+		Findings []struct {
+			Property  string `json:"property"`
+			Signature string `json:"signature"`
+			Status    string `json:"status"`
+		} `json:"findings"`
+	}
+	if json.Unmarshal(raw, &kf) != nil {
+		return false
+	}
+	for _, f := range kf.Findings {
+		if f.Property == "C19" && f.Signature == sig && f.Status == "open" {
+			return true
+		}
+	}
+	return false
 }
 
 // ---------------------------------------------------------------- generators
@@ -589,6 +669,17 @@ func (*h) Gen(r *hlib.Rand, tier string, scale int, emit func(string)) {
 		}
 		emitPlan(ss, o)
 	}
+	// --- the score table of the Lean witness livelock_real_scores, and (once it is a recorded finding) its input
+	emit("case w1")
+	emit("witness")
+	if findingListed("plan-only-noop-singletons") {
+		lo := opts{1, 5000000, 10, 2000, 100.0, 2.0}
+		emitPlan([]*seg{{1, 362321, 362321}, {2, 42807, 42807}, {3, 5041, 5041}}, lo)
+		emitPlan([]*seg{{1, 5983, 5983}, {2, 431, 431}, {3, 30, 30}, {4, 1, 1}}, opts{1, 100000, 2, 2, 100.0, 2.0})
+		emit("case h900000 " + lo.String())
+		emit("add 1:362321:362321 2:42807:42807 3:5041:5041")
+		emit("settle 6")
+	}
 	// --- generated lists
 	n := 900 * scale
 	if thorough {
@@ -704,8 +795,13 @@ func (*h) Gen(r *hlib.Rand, tier string, scale int, emit func(string)) {
 		if total < 0 {
 			total = 0
 		}
+		if r.Chance(25) {
+			o.growth = []float64{1.25, 1.5, 1.75, 2.5, 3.5, 7.5, 1.1, 3.3, 7.77, 20, 100}[r.Intn(11)]
+		}
 		if budgetIters(total, first, o, 100001) > 100000 {
-			o.growth = 2
+			if o.growth < 2 {
+				o.growth = 2
+			}
 			if first < 1000 {
 				first = 1000
 			}
@@ -719,6 +815,21 @@ func (*h) Gen(r *hlib.Rand, tier string, scale int, emit func(string)) {
 	}
 	for i := 0; i < hs; i++ {
 		genHistory(r, i, thorough, emit)
+	}
+	// --- real writers: what the real merger passes to the planner
+	rs := 24 * scale
+	if thorough {
+		rs = 240 * scale
+	}
+	for i := 0; i < rs; i++ {
+		o := opts{per: r.Range(1, 3), max: []int64{5000000, 60, 200}[r.Weighted(6, 2, 2)], perTask: r.Range(2, 4),
+			floor: []int64{1, 2, 5}[r.Intn(3)], growth: []float64{2, 3, 10}[r.Intn(3)], weight: weights[r.Intn(len(weights))]}
+		nb := r.Range(8, 40)
+		if thorough && r.Chance(20) {
+			nb = r.Range(40, 60)
+		}
+		emit(fmt.Sprintf("case r%d", i))
+		emit(fmt.Sprintf("real %s %d %d", o.String(), nb, r.Intn(1<<30)))
 	}
 }
 
@@ -745,6 +856,9 @@ func genHistory(r *hlib.Rand, idx int, thorough bool, emit func(string)) {
 		o.floor = []int64{1, 10, 100, 2000}[r.Intn(4)]
 		o.growth = []float64{2, 3, 10}[r.Intn(3)]
 		o.weight = weights[r.Intn(len(weights))]
+	}
+	if idx%12 == 5 {
+		o.perTask = 1 // not histOptionsSane: only one-segment "merges" are planned; the driver judges the history na
 	}
 	emit(fmt.Sprintf("case h%d %s", idx, o.String()))
 	rounds := r.Range(3, 40)
@@ -927,14 +1041,42 @@ func (x *h) Exec(line string, out func(string, string), st *hlib.Stats, work str
 			b := mergeplan.CalcBudget(total, first, &mergeplan.Options{MaxSegmentsPerTier: per, TierGrowth: g})
 			// second field: the same number again when the exact staircase over the naturals applies
 			// (whole-number growth, everything far below 2^53); the model prints calcBudgetNat there
+			f2, f3 := "-", "-"
 			if wholeGrowth(g) && total < 1<<45 && first < 1<<45 {
-				return fmt.Sprintf("%d %d", b, b)
+				f2 = strconv.Itoa(b)
 			}
-			return fmt.Sprintf("%d -", b)
+			// third field: the same number once more when every float operation of CalcBudget is exact (growth
+			// is a small dyadic fraction, sizes below 2^32): the model prints calcBudgetRat there
+			if _, _, ok := growthFraction(g); ok && total >= 0 && total < 1<<32 && first < 1<<32 && per < 256 {
+				f3 = strconv.Itoa(b)
+			}
+			return fmt.Sprintf("%d %s %s", b, f2, f3)
 		})
 		st.Count("op:budget")
 		st.Case(line, total > 0)
 		out(line, res)
+	case "witness":
+		res := hlib.Catch(func() string {
+			o := mergeplan.DefaultMergePlanOptions
+			o.MaxSegmentsPerTier = 1
+			o.TierGrowth = 100
+			var parts []string
+			for _, sz := range [][]int64{{362321, 42807, 5041}, {42807, 5041}, {5041}, {362321, 42807}, {42807}, {362321}} {
+				var ss []*seg
+				var key []string
+				for i, v := range sz {
+					ss = append(ss, &seg{uint64(i + 1), v, v})
+					key = append(key, strconv.FormatInt(v, 10))
+				}
+				parts = append(parts, fmt.Sprintf("%s=%016x", strings.Join(key, "."), math.Float64bits(mergeplan.ScoreSegments(asSegments(ss), &o))))
+			}
+			return strings.Join(parts, " ")
+		})
+		st.Count("op:witness")
+		st.Case(line, true)
+		out(line, res)
+	case "real":
+		execReal(rest, out, st, work)
 	case "add":
 		if x.hist == nil {
 			out(line, "bad-op")
@@ -1027,4 +1169,231 @@ func classify(ob planObs) string {
 
 var _ = sort.Ints
 
-func main() { hlib.Main(&h{}) }
+// ---------------------------------------------------------------- real writers
+
+// rootRec: the segments of one installed root, as the planner would see them
+type rootSeg struct {
+	id         uint64
+	full, live int64
+	persisted  bool
+}
+
+type realRec struct {
+	mu    sync.Mutex
+	roots [][]rootSeg // the last roots installed (newest last)
+	calls []*realCall
+	cur   *realCall
+	o     opts
+}
+
+type realCall struct {
+	total, first int64
+	budget       int
+	segs         []*seg // the persisted segments of the root the call was matched with (nil: unmatched)
+	rosterIDs    map[uint64][2]int64
+}
+
+var rec *realRec
+
+func traceRoot(w *index.Writer, kind string, snap *index.Snapshot, x uint64) {
+	r := rec
+	if r == nil || kind != "root" || snap == nil {
+		return
+	}
+	var rs []rootSeg
+	for _, ss := range snap.Segments() {
+		ps, ok := ss.(mergeplan.Segment)
+		if !ok {
+			continue
+		}
+		e := rootSeg{id: ps.ID(), full: ps.FullSize(), live: ps.LiveSize()}
+		if sg, ok := ss.(interface{ Segment() segment.Segment }); ok {
+			if p, ok := sg.Segment().(interface{ Persisted() bool }); ok {
+				e.persisted = p.Persisted()
+			}
+		}
+		rs = append(rs, e)
+	}
+	r.mu.Lock()
+	r.roots = append(r.roots, rs)
+	if len(r.roots) > 16 {
+		r.roots = r.roots[len(r.roots)-16:]
+	}
+	r.mu.Unlock()
+}
+
+// the planner's view of a recorded root: persisted segments only (index/merge.go planMergeAtSnapshot)
+func plannerInput(rs []rootSeg) []*seg {
+	var out []*seg
+	for _, e := range rs {
+		if e.persisted {
+			out = append(out, &seg{e.id, e.full, e.live})
+		}
+	}
+	return out
+}
+
+func checksum(ss []*seg, o opts) (total, first int64) {
+	first = math.MaxInt64
+	for _, s := range ss {
+		if s.live < first {
+			first = s.live
+		}
+		if s.live < o.max/2 {
+			total += s.live
+		}
+	}
+	if first < o.floor {
+		first = o.floor
+	}
+	return
+}
+
+func execReal(rest string, out func(string, string), st *hlib.Stats, work string) {
+	w := strings.Fields(rest)
+	o, ok := parseOpts(w)
+	if !ok || len(w) < 8 {
+		out("real "+rest, "bad-op")
+		return
+	}
+	nb, _ := strconv.Atoi(w[6])
+	seed, _ := strconv.Atoi(w[7])
+	r := hlib.NewRand(uint64(seed))
+	dir := filepath.Join(work, "c19real")
+	_ = os.RemoveAll(dir)
+	if err := os.MkdirAll(dir, 0o755); err != nil {
+		out("real "+rest, "err:mkdir")
+		return
+	}
+	defer os.RemoveAll(dir)
+	rr := &realRec{o: o}
+	rec = rr
+	defer func() { rec = nil }()
+	cfg := bluge.DefaultConfig(dir)
+	ic := cfg.VerifIndexConfig()
+	// ice v1 only: ice v2 has a known data race between a merge reading stored fields and the segment's buffer
+	// (known finding of C01/C15, dependency code) that can panic inside the merger goroutine and would take the
+	// harness process down with it; the planner input does not depend on the segment format
+	ic.SegmentVersion = 1
+	ic.SegmentType = "ice"
+	ic.MergePlanOptions = *o.real()
+	ic.AsyncError = func(error) {}
+	ic.MergePlanOptions.CalcBudget = func(total, first int64, oo *mergeplan.Options) int {
+		b := mergeplan.CalcBudget(total, first, oo)
+		c := &realCall{total: total, first: first, budget: b, rosterIDs: map[uint64][2]int64{}}
+		rr.mu.Lock()
+		// the merger planned on the root that was current a moment ago: newest recorded root with these sums
+		for i := len(rr.roots) - 1; i >= 0; i-- {
+			in := plannerInput(rr.roots[i])
+			if len(in) < 2 {
+				continue
+			}
+			if t, f := checksum(in, o); t == total && f == first {
+				c.segs = in
+				break
+			}
+		}
+		rr.calls = append(rr.calls, c)
+		rr.cur = c
+		rr.mu.Unlock()
+		return b
+	}
+	ic.MergePlanOptions.ScoreSegments = func(ro []mergeplan.Segment, oo *mergeplan.Options) float64 {
+		rr.mu.Lock()
+		if rr.cur != nil {
+			for _, s := range ro {
+				rr.cur.rosterIDs[s.ID()] = [2]int64{s.FullSize(), s.LiveSize()}
+			}
+		}
+		rr.mu.Unlock()
+		return mergeplan.ScoreSegments(ro, oo)
+	}
+	cfg = cfg.VerifWithIndexConfig(ic)
+	res := hlib.Catch(func() string {
+		wr, err := bluge.OpenWriter(cfg)
+		if err != nil {
+			return "err:open"
+		}
+		ids := r.Range(20, 200)
+		for b := 0; b < nb; b++ {
+			batch := bluge.NewBatch()
+			n := r.Range(1, 30)
+			for k := 0; k < n; k++ {
+				id := fmt.Sprintf("d%d", r.Intn(ids))
+				switch r.Weighted(6, 2) {
+				case 0:
+					batch.Update(bluge.Identifier(id), bluge.NewDocument(id).AddField(bluge.NewKeywordField("k", "v"+strconv.Itoa(r.Intn(5)))))
+				default:
+					batch.Delete(bluge.Identifier(id))
+				}
+			}
+			if err := wr.Batch(batch); err != nil {
+				_ = wr.Close()
+				return "err:batch"
+			}
+			// let the persister and the merger work between batches (they only plan persisted segments)
+			time.Sleep(time.Duration(r.Range(2, 25)) * time.Millisecond)
+		}
+		time.Sleep(150 * time.Millisecond)
+		if err := wr.Close(); err != nil {
+			return "err:close"
+		}
+		return "ok"
+	})
+	st.Count("op:real")
+	st.Count("real:" + res)
+	rr.mu.Lock()
+	calls := rr.calls
+	rr.mu.Unlock()
+	emitted := 0
+	seen := map[string]bool{}
+	for _, c := range calls {
+		st.Count("real:planner-calls")
+		if c.segs == nil {
+			st.Count("real:planner-call-unmatched")
+			continue
+		}
+		// every roster member the real planner scored must be a segment of the matched input, same sizes
+		consistent := true
+		byID := map[uint64]*seg{}
+		for _, s := range c.segs {
+			byID[s.id] = s
+		}
+		for id, fl := range c.rosterIDs {
+			s := byID[id]
+			if s == nil || s.full != fl[0] || s.live != fl[1] {
+				consistent = false
+			}
+		}
+		if !consistent {
+			st.Count("real:planner-call-unmatched")
+			continue
+		}
+		key := segsString(c.segs)
+		if seen[key] {
+			continue
+		}
+		seen[key] = true
+		ob := observePlan(c.segs, o)
+		resl := ob.result()
+		if want := fmt.Sprintf("budget(%d,%d)=%d", c.total, c.first, c.budget); ob.budget != want && ob.budget != "budget=-" {
+			resl = "real-call-differs " + want + " vs " + resl
+		}
+		withDel := false
+		for _, s := range c.segs {
+			if s.live < s.full {
+				withDel = true
+			}
+		}
+		st.Case("rplan "+o.String()+"|"+key, withDel || (ob.plan != nil && len(ob.plan.Tasks) > 0))
+		out("rplan "+o.String()+" | "+key+" | "+ob.scores, resl)
+		emitted++
+	}
+	st.Case("real "+rest, emitted > 0)
+	out("real "+rest, res)
+}
+
+func main() {
+	index.SetVerifTrace(traceRoot)
+	hlib.Main(&h{})
+}
